@@ -118,20 +118,30 @@ class Cubics(SubCheck):
 
     def __init__(self, svg, tier):
         self.svg = svg
-        mags = MAGS if tier == "thorough" else [1.0]
+        mags = MAGS
         cc = CC + ([-7.0, -1.0, 0.5, 2.0, 9.0] if tier == "thorough" else [])
         self.p = Product(CE, cc, cc, cc, cc, mags)
         # near-linear / threshold family: per-axis coefficient a0 - 3 a1 + 3 a2 - a3 around +-1e-8
         eps = [0.0, 0.4e-8, -0.4e-8, 0.99e-8, 1.01e-8, -0.99e-8, -1.01e-8, 3e-8, -3e-8, 1e-6, 1e-11]
         self.q = Product(eps, eps, [0.0, 1.0, -2.0], MAGS)
+        # flat family: a cubic that bulges by a tiny fraction of its extent on one axis (the extremum is real however
+        # small the bulge: discriminants and epsilons must scale with the curve, not be absolute)
+        bump = [1e-3, 5e-5, 4e-5, 1e-6, -5e-5, 1e-9, 0.0]
+        self.f = Product(bump, bump, [0, 1], MAGS)
 
     def size(self):
-        return len(self.p) + len(self.q)
+        return len(self.p) + len(self.q) + len(self.f)
 
     def case(self, i):
         if i < len(self.p):
             e, ax, ay, bx, by, m = self.p[i]
             return dict(p=[[0.0, 0.0], [ax * m, ay * m], [bx * m, by * m], [e[0] * m, e[1] * m]], mag=m, fam="lattice")
+        if i >= len(self.p) + len(self.q):
+            b1, b2, axis, m = self.f[i - len(self.p) - len(self.q)]
+            pts = [[0.0, 0.0], [1.0 * m, b1 * m], [2.0 * m, b2 * m], [3.0 * m, 0.0]]
+            if axis:
+                pts = [[y, x] for x, y in pts]
+            return dict(p=pts, mag=m, fam="flat")
         ex, ey, bend, m = self.q[i - len(self.p)]
         # x: 0, 1, 2 + ex/3, 3  -> denom = 3*(..)  ;  y: 0, bend, 2*bend + ey/3, bend ... quadratic-ish
         return dict(p=[[0.0, 0.0], [1.0 * m, bend * m], [(2.0 + ex / 3.0) * m, (2.0 * bend + ey / 3.0 - 1.0) * m],
